@@ -6,8 +6,14 @@ use ractor_cluster::verif::{auth_proto as ap, challenge_digest, control_proto as
 use ractor_cluster::{BoxRead, BoxWrite, ClusterBidiStream};
 use serde_json::{json, Map, Value};
 
-pub const COOKIE: &str = "the-cookie";
+/// longer than one SHA-256 block, so that every byte of it has to enter the digest
+pub const COOKIE: &str = "the-cookie/0123456789abcdefghijklmnopqrstuvwxyz/0123456789ABCDEFGHIJKLMNOPQRSTUVWXYZ/tail-A";
 pub const WRONG: &str = "not-the-cookie";
+/// differs from COOKIE only in its last byte (beyond the first 64 bytes)
+pub const WRONG_TAIL: &str = "the-cookie/0123456789abcdefghijklmnopqrstuvwxyz/0123456789ABCDEFGHIJKLMNOPQRSTUVWXYZ/tail-B";
+/// COOKIE cut after 60 bytes, and COOKIE with one more byte
+pub const WRONG_PREFIX: &str = "the-cookie/0123456789abcdefghijklmnopqrstuvwxyz/0123456789AB";
+pub const WRONG_LONGER: &str = "the-cookie/0123456789abcdefghijklmnopqrstuvwxyz/0123456789ABCDEFGHIJKLMNOPQRSTUVWXYZ/tail-A+";
 
 /// One adversary symbol: class, kind, parameter (names shared with spec/ClusterAuth.tla)
 #[derive(Clone, Debug, PartialEq, Eq, Hash)]
@@ -76,8 +82,11 @@ pub fn digest(good: bool, challenge: u32, variant: u64) -> Vec<u8> {
     if good {
         return challenge_digest(COOKIE, challenge);
     }
-    match variant % 5 {
+    match variant % 8 {
         0 => challenge_digest(WRONG, challenge),
+        5 => challenge_digest(WRONG_TAIL, challenge),
+        6 => challenge_digest(WRONG_PREFIX, challenge),
+        7 => challenge_digest(WRONG_LONGER, challenge),
         1 => vec![],
         2 => {
             let mut d = challenge_digest(COOKIE, challenge);
